@@ -170,7 +170,13 @@ func runC08(c *Ctx, idx int, o *Obs) {
 		return
 	}
 	one := func(ref_, comp string, tips, identical bool) (tree.BipartitionStats, bool) {
-		ch, err := tree.Compare(mustParse(ref_), chanOf(mustParse(comp)), tips, identical, 1)
+		// a third of the calls get tree objects with a past (indexed under another tip name, then renamed): see usedObject
+		ta, tb := mustParse(ref_), mustParse(comp)
+		if r.Intn(3) == 0 {
+			ta, tb = usedObject(r, ref_), usedObject(r, comp)
+			o.Ev("Compare_used_objects", 1)
+		}
+		ch, err := tree.Compare(ta, chanOf(tb), tips, identical, 1)
 		if !o.Check(err == nil, "compare_error", fmt.Sprint(err), inp) {
 			return tree.BipartitionStats{}, false
 		}
@@ -244,7 +250,11 @@ func runC08(c *Ctx, idx int, o *Obs) {
 
 		// weighted
 		if lens == "all" {
-			ch, err := tree.CompareWeighted(mustParse(a), chanOf(mustParse(b)), tips, false, 1)
+			wa, wb := mustParse(a), mustParse(b)
+			if r.Intn(3) == 0 {
+				wa, wb = usedObject(r, a), usedObject(r, b)
+			}
+			ch, err := tree.CompareWeighted(wa, chanOf(wb), tips, false, 1)
 			if o.Check(err == nil, "weighted_error", fmt.Sprint(err), inp) {
 				var recs []tree.WeightedBipartitionStats
 				for s := range ch {
